@@ -2029,11 +2029,16 @@ impl<'a, SE: extensions::ShellExtensions> WordExpander<'a, SE> {
             brush_parser::word::SubstringMatchKind::Prefix
             | brush_parser::word::SubstringMatchKind::Suffix
             | brush_parser::word::SubstringMatchKind::FirstOccurrence => {
-                regex.replace(s, replacement).into_owned()
+                // The replacement is literal text: `$0`, `${1}` and `$$` are not capture references.
+                regex
+                    .replace(s, fancy_regex::NoExpand(replacement))
+                    .into_owned()
             }
 
             brush_parser::word::SubstringMatchKind::Anywhere => {
-                regex.replace_all(s, replacement).into_owned()
+                regex
+                    .replace_all(s, fancy_regex::NoExpand(replacement))
+                    .into_owned()
             }
         }
     }
